@@ -37,7 +37,7 @@ static void setup(void)
     vx_p.line_ = nondet_size(); __CPROVER_assume(vx_p.line_ <= SIZE_MAX / 2); vx_p.ignore_empty_lines_ = nondet_bool(); vx_begin_records = 0; vx_state_pushes = 0;
 }
 void h_quoted_states(void) { setup(); quoted_states(&vx_p, &vx_ec); }
-void h_eof_quoted(void) { setup(); vx_end_quoted = 0; vx_default_arm = false; vx_column_index = nondet_size(); __CPROVER_assume(vx_column_index <= SIZE_MAX / 2); uint8_t st = nondet_u8(); __CPROVER_assume(st == csv_parse_state_quoted_string || st == csv_parse_state_escaped_value || st == csv_parse_state_before_last_quoted_field); vx_p.state_ = st; eof_quoted(&vx_p, &vx_ec); }
+void h_eof_quoted(void) { setup(); vx_end_quoted = 0; vx_default_arm = false; vx_column_index = nondet_size(); __CPROVER_assume(vx_column_index <= SIZE_MAX / 2); uint8_t st = nondet_u8(); __CPROVER_assume(st == csv_parse_state_quoted_string || st == csv_parse_state_escaped_value || st == csv_parse_state_before_last_quoted_field || st == csv_parse_state_between_values); vx_p.state_ = st; eof_quoted(&vx_p, &vx_ec); }
 void h_expect_record(void) { setup(); vx_p.state_ = csv_parse_state_expect_record; vx_buflen = 0; expect_record(&vx_p, &vx_ec); }
 void h_unquoted_string(void) { setup(); unquoted_string(&vx_p, &vx_ec); }
 #endif
